@@ -80,7 +80,7 @@ def main():
         "setup_cmd": f"cd /verif && {ENV} go build -o bin/vcheck ./cmd/vcheck && {ENV} go build -o bin/instrument ./cmd/instrument",
         "hooks": {
             "guard": "verif",
-            "enable": "no source hooks are committed to /repo: every check derives its seams from /repo's current working tree at run time (cmd/instrument: sync->shim import swap, range-over-map rewrite, os call redirect, in-package export files) and builds with `go test -overlay <scratch>/overlay.json -vet=off`; back end B additionally overlays five expressions of go1.26.8's runtime (select poll order, bubbled-timer tie-break, run-queue randomization, wake-up preemption; overlayfiles/runtime) and a writable copy of the pinned go-zookeeper module; the build tag `verif` is reserved and unused",
+            "enable": "no source hooks are committed to /repo: every check derives its seams from /repo's current working tree at run time (cmd/instrument: sync->shim import swap, range-over-map rewrite, os call redirect, in-package export files) and builds with `go test -overlay <scratch>/overlay.json -vet=off`; back end B additionally overlays a dozen expressions in six files of go1.26.8's runtime (select poll order, bubbled-timer tie-break, run-queue randomization, wake-up preemption, yields to the local run queue, no time-slice preemption while seeded, lock waits idle inside a bubble; overlayfiles/runtime, cmd/vcheck addRuntimeSeam) and a writable copy of the pinned go-zookeeper module; the build tag `verif` is reserved and unused",
             "baseline_off_cmd": "for m in . v2; do (cd /repo/$m && GOFLAGS=-mod=mod GOPROXY=off GOSUMDB=off go test -json -vet=off -count=1 -timeout 25m ./...); done",
             "source_commits": [],
             "add_only": True,
